@@ -237,6 +237,17 @@ func rankGen(r *rand.Rand, count int, emit func(op string, args ...string)) {
 			}
 			sort.Ints(early)
 			emit("frozen", itoa(pushes), encInts(early), itoa(tail))
+			// longer lists: several snapshots, the later ones trimming (--tail) inside chunks that
+			// earlier snapshots still share
+			fp := 200 + r.Intn(800)
+			ft := []int{0, 50, 150, 250, 333, 100, 101}[r.Intn(7)]
+			pts := []int{}
+			for k := 0; k < 2+r.Intn(4); k++ {
+				pts = append(pts, r.Intn(fp+1))
+			}
+			pts = append(pts, fp)
+			sort.Ints(pts)
+			emit("frozen", itoa(fp), encInts(pts), itoa(ft))
 		case 4:
 			emit("slice", itoa(1+r.Intn(40)), itoa(r.Intn(300)))
 		default:
